@@ -69,6 +69,7 @@ type FnEnc struct {
 	elemwise map[*ssa.Alloc]bool
 	escaped  map[*ssa.Alloc]bool
 	noRestore map[*ssa.Alloc]bool
+	callSeq   int
 	escOut   map[int]map[*ssa.Alloc]bool
 	curPos   token.Pos
 	parent   *FnEnc // inlining caller (its unescaped locals survive our havocs too)
@@ -1255,6 +1256,7 @@ type lastCall struct {
 	str []Term // string content of []byte results at call time
 	args []Val // argument values (for a static method call the receiver is argument 0)
 	argT []types.Type
+	seq  int // position in the order in which call sites were met (program order along a path)
 }
 
 func calleeKey(c *ssa.CallCommon) string {
@@ -1296,7 +1298,8 @@ func (f *FnEnc) recordCall(c *ssa.CallCommon, res Val) {
 	if f.lastRes == nil {
 		f.lastRes = map[string]lastCall{}
 	}
-	lc := lastCall{blk: f.blk, res: res, sig: c.Signature()}
+	f.callSeq++
+	lc := lastCall{blk: f.blk, res: res, sig: c.Signature(), seq: f.callSeq}
 	for _, a := range c.Args {
 		func() {
 			defer func() {
